@@ -294,6 +294,16 @@ class Externals(object):
                 out = PyList(r)
                 out.fresh = True
                 return out
+            if is_symstr(s) and len(args) == 2 and args[0] is None and args[1] == 1:
+                # text.split(None, 1): one or two non-empty pieces (A2; opaque functions of the text)
+                interp.ctx.assumed.add("A2:str.split(None, 1) yields the first whitespace-delimited token and the rest (opaque functions)")
+                first = z3.Function("split.first", z3.StringSort(), z3.StringSort())(s)
+                rest = z3.Function("split.rest", z3.StringSort(), z3.StringSort())(s)
+                two = interp.ctx.bool("split.has_rest", record=False)
+                interp.ctx.assume(z3.Length(first) >= 1, definitional=True)
+                out = PyList([first, rest] if interp.ctx.branch(two) else [first])
+                out.fresh = True
+                return out
         h = self.regex_handlers.get("str." + name)
         if h is not None:
             return h(interp, s, args, kwargs, node)
@@ -303,6 +313,11 @@ class Externals(object):
         return mkstr([template] + [Hole(a) for a in args])
 
     def slice(self, interp, base, lo, hi, node):
+        if is_symstr(base):
+            n = z3.Length(base)
+            lo_ = 0 if lo is None else lo
+            if isinstance(lo_, int) and lo_ >= 0 and hi is None:
+                return z3.SubString(base, lo_, n - lo_)
         h = self.regex_handlers.get("slice")
         if h is not None:
             return h(interp, base, lo, hi, node)
